@@ -70,6 +70,14 @@ CLAIMED["C03"] = (
     "concurrent.futures model (orders enumerated); chunked states constructed directly; exact arithmetic; real thread scheduling and the "
     "pandas/pyarrow factorizers outside", "DESIGN.md 4 C03")
 
+CLAIMED["C07"] = (
+    "the real GroupBy._apply_gb_reduction(transform=True) on directly constructed states (contiguous, chunked with pointer tables, chunked "
+    "after unification) returns at every row the per-group result of the same real kernels for the row's global code (sum/count for mean), the "
+    "neutral result at null-key rows and for groups without a selected row, in input order and length; solver-decided for all codes/values/null "
+    "placements/masks within N<=4,G<=2 (quick), N<=6,G<=3 (thorough)",
+    "values only: index restoration and container type are pandas/polars code (cuts: _preprocess_arguments, _convert_arr_to_pandas_series, "
+    "DataFrame/Series fakes); var/std/median/apply transform under C16", "DESIGN.md 4 C07")
+
 NOT_APPLICABLE = {
     "C11": "labelling/order/shape are decided entirely by pandas Index/MultiIndex/DataFrame operations (C extension semantics); nothing symbolic to quantify over within reach of the encoder (DESIGN.md 5)",
     "C14": "margins and crosstab are reindex/groupby(level)/concat/unstack on pandas objects; not encodable (DESIGN.md 5)",
